@@ -18,8 +18,10 @@ pub const ENTRY: Entry = Entry {
            38,39,3A): instruction(), fill_params_buf into an exact-length slice (a byte beyond it would panic) and into a 16-byte buffer \
            poisoned twice with different values (bytes >= n untouched), returned length; then write_command / write_raw through a \
            recording interface. Domains: column/page address over a boundary lattice^2 in quick and ALL 2^32 (start,end) pairs in \
-           thorough; all 65536 scroll starts; scroll area over values with <= 2 bits set and complements, cubed; all 36 pixel formats; \
-           all enum variants; write_raw for all 256 instructions x parameter lengths 0..=20. Non-trivial = commands with parameters.",
+           thorough; all 65536 scroll starts; scroll area over values with <= 2 bits set and complements, cubed; all 36 pixel formats; the address mode for all 64 constructor triples x setter chains of length <= 2; \
+           all enum variants; write_raw for all 256 instructions x parameter lengths 0..=20; write_raw on the real SPI / 8-bit / 16-bit transports, \
+           also after every (command ; pixel call) history over colliding opcodes / pixel words with each single low-level operation of that history \
+           failing once. Non-trivial = commands with parameters.",
     assumptions: &["the MIPI DCS opcode table is transcribed in the harness"],
     run,
 };
@@ -126,6 +128,48 @@ fn run(ctx: &Ctx) -> Part {
         acc.nontrivial += 1;
         if let Some(m) = check_cmd(&SetTearingEffect::new(te), 0x35, &[p]).or_else(|| on_bus(SetTearingEffect::new(te), 0x35, &[p])) {
             acc.violation(viol(ctx, "SetTearingEffect", m, json!(p)));
+        }
+    }
+    // address mode: all 64 new(colour, orientation, refresh) x setter chains of length <= 2 (14^2): the one parameter
+    // byte is the MIPI encoding of the resulting triple (table derived in spec.rs, shared with C14)
+    {
+        use crate::dut::{orient_of, refresh_of};
+        use mipidsi::options::ColorOrder;
+        let co = |b: bool| if b { ColorOrder::Bgr } else { ColorOrder::Rgb };
+        for k in 0..64u32 {
+            for a1 in 0..15u32 {
+                for a2 in 0..15u32 {
+                    if a1 == 14 && a2 != 14 {
+                        continue;
+                    }
+                    let (mut bgr, mut o, mut rf) = (k & 1 != 0, ((k >> 1) & 7) as u8, ((k >> 4) & 3) as u8);
+                    let mut m = SetAddressMode::new(co(bgr), orient_of(o), refresh_of(rf));
+                    for a in [a2, a1] {
+                        match a {
+                            0 | 1 => {
+                                bgr = a == 1;
+                                m = m.with_color_order(co(bgr));
+                            }
+                            2..=9 => {
+                                o = (a - 2) as u8;
+                                m = m.with_orientation(orient_of(o));
+                            }
+                            10..=13 => {
+                                rf = (a - 10) as u8;
+                                m = m.with_refresh_order(refresh_of(rf));
+                            }
+                            _ => {}
+                        }
+                    }
+                    acc.evaluations += 1;
+                    acc.nontrivial += 1;
+                    let want = [crate::spec::madctl_spec(bgr, o, rf)];
+                    let r = check_cmd(&m, 0x36, &want).or_else(|| if a2 == 14 { on_bus(m, 0x36, &want) } else { None });
+                    if let Some(msg) = r {
+                        acc.violation(viol(ctx, "SetAddressMode", format!("new(bgr {}, orientation {}, refresh {}) then setters {a2},{a1} (0-1 colour, 2-9 orientation, 10-13 refresh, 14 none): {msg}", k & 1, (k >> 1) & 7, k >> 4), json!([k, a2, a1])));
+                    }
+                }
+            }
         }
     }
     // pixel formats: all 36 (dpi, dbi) pairs
@@ -273,6 +317,116 @@ fn run(ctx: &Ctx) -> Part {
             }
             acc.count("real_transport_rigs", 1);
         }
+    }
+    // write_raw on the real transports after a history: command ; pixel call ; command, with opcodes and pixel
+    // words chosen to collide (a transport that remembers what it last put on the lines), and with every single
+    // low-level operation of the first two calls failing once (state left over from an aborted call)
+    {
+        use crate::tr::{TCall, TRig};
+        let cmds: Vec<(u8, Vec<u8>)> = vec![
+            (0x2C, vec![]),
+            (0x2A, vec![0x00, 0x2A, 0x01, 0x3F]),
+            (0x36, vec![0xA8]),
+            (0x00, vec![]),
+            (0xFF, vec![0xFF, 0xFF]),
+            (0x2C, vec![0x2C]),
+        ];
+        let mk = |kind: usize| -> TRig {
+            match kind {
+                0 => TRig::spi(3, 0xEE),
+                1 => TRig::spi(5, 0xEE),
+                2 => TRig::spi(16, 0xEE),
+                3 => TRig::par8(Board::default_levels()),
+                _ => TRig::par16(Board::default_levels()),
+            }
+        };
+        let names = ["Spi(3)", "Spi(5)", "Spi(16)", "Par8", "Par16"];
+        let jobs: Vec<usize> = (0..5).collect();
+        let a = jobs
+            .par_iter()
+            .fold(Acc::new, |mut acc, &kind| {
+                let xs: Vec<Option<TCall>> = if kind == 4 {
+                    vec![
+                        None,
+                        Some(TCall::Pixels { n: 1, words: vec![0x002C, 0x2C2C] }),
+                        Some(TCall::Pixels { n: 1, words: vec![0x0102, 0xFFFE, 0x0000] }),
+                        Some(TCall::Repeat { pixel: vec![0x002C], count: 1 }),
+                        Some(TCall::Repeat { pixel: vec![0x5555], count: 3 }),
+                        Some(TCall::Repeat { pixel: vec![0x0000], count: 2 }),
+                        Some(TCall::Repeat { pixel: vec![0x00FF], count: 2 }),
+                        Some(TCall::Repeat { pixel: vec![0x1234], count: 0 }),
+                    ]
+                } else {
+                    vec![
+                        None,
+                        Some(TCall::Pixels { n: 2, words: vec![0x2C, 0x2C] }),
+                        Some(TCall::Pixels { n: 2, words: vec![1, 2, 3, 4, 5, 6] }),
+                        Some(TCall::Repeat { pixel: vec![0x2C, 0x2C], count: 1 }),
+                        Some(TCall::Repeat { pixel: vec![0x55, 0x55], count: 3 }),
+                        Some(TCall::Repeat { pixel: vec![0x12, 0x34], count: 2 }),
+                        Some(TCall::Repeat { pixel: vec![0x00, 0x00], count: 2 }),
+                        Some(TCall::Repeat { pixel: vec![0xFF, 0xFF, 0xFF], count: 2 }),
+                        Some(TCall::Repeat { pixel: vec![0x12, 0x34], count: 0 }),
+                    ]
+                };
+                for (ai, ca) in cmds.iter().enumerate() {
+                    for (xi, x) in xs.iter().enumerate() {
+                        // fault position: None, or the k-th operation counted from the start of call A (spans A and X)
+                        let mut k: Option<u64> = None;
+                        loop {
+                            let mut fired_any = k.is_none();
+                            for cb in cmds.iter() {
+                                let mut t = mk(kind);
+                                t.bd.borrow_mut().budget = 20_000; // termination oracle for the whole history
+                                let ops0 = t.bd.borrow().ops;
+                                if let Some(k) = k {
+                                    t.bd.borrow_mut().faults = vec![Fault { at: ops0 + k, mode: FaultMode::Unchanged }];
+                                }
+                                let o1 = t.call_raw(ca.0, &ca.1);
+                                let mut failed = !o1.is_ok();
+                                if !failed {
+                                    if let Some(x) = x {
+                                        failed = !t.call(x).is_ok();
+                                    }
+                                }
+                                let fired = !t.bd.borrow().failed_ops.is_empty();
+                                t.bd.borrow_mut().faults.clear();
+                                if k.is_some() && !fired {
+                                    break;
+                                }
+                                fired_any = true;
+                                let _ = failed;
+                                let _ = t.latched();
+                                acc.evaluations += 1;
+                                acc.nontrivial += 1;
+                                acc.count(if k.is_some() { "transport_histories_with_fault" } else { "transport_histories" }, 1);
+                                let out = t.call_raw(cb.0, &cb.1);
+                                let got = t.latched();
+                                let want = TCall::Cmd { op: cb.0, args: cb.1.clone() }.expected();
+                                if !out.is_ok() || got != want {
+                                    let sig = if k.is_some() { "write_raw(real transport, after a failed call)" } else { "write_raw(real transport, after other calls)" };
+                                    acc.violation(viol(
+                                        ctx,
+                                        sig,
+                                        format!("{}: write_raw({:02x}, {:02x?}) ; {:?}{} ; write_raw({:02x}, {:02x?}): outcome {out:?}, device latched {got:02x?}", names[kind], ca.0, ca.1, x, match k { Some(k) => format!(" [operation {k} of this history fails once]"), None => String::new() }, cb.0, cb.1),
+                                        json!([names[kind], ai, xi, k]),
+                                    ));
+                                }
+                            }
+                            if !fired_any {
+                                break;
+                            }
+                            k = Some(k.map_or(0, |k| k + 1));
+                            if k.unwrap() > 400 {
+                                break;
+                            }
+                        }
+                    }
+                }
+                acc
+            })
+            .reduce(Acc::new, Acc::merge);
+        acc = acc.merge(a);
     }
     acc.states = 20;
     acc.transitions = acc.evaluations;
